@@ -432,7 +432,15 @@ def routing_worker(args):
     return hutil.export(chk)
 
 
+def errno_worker(args):
+    """the libffi path's errno bracket (all paths must hand the same errno to ffi.errno): the obligation of harness/C22.py"""
+    from harness import C22
+    return C22.worker((args[0], args[1], 'libffi-call-bracket'))
+
+
 def dispatch(args):
+    if args[2] == 'errno':
+        return errno_worker(args)
     if args[2] == 'routing':
         return routing_worker(args)
     if args[2] == 'fbstruct':
@@ -448,6 +456,7 @@ def run(chk):
         cases.append(P + ('fbstruct', depths))
     for i, (t, size, sg) in enumerate(INT_TYPES):
         cases.append(P + ('int', 'id_i%d' % i, t, size, sg))
+    cases.append(P + ('errno',))
     cases.append(P + ('routing', 'mix2'))
     cases.append(P + ('routing', 'second3'))
     cases.append(P + ('bool', 'id_b', '_Bool', 1, False))
